@@ -1,6 +1,7 @@
 (* Pinned statements of C03 (generated once by tools/mkpins.py from coq/props/C03.v, then committed). *)
 From DV Require Import Model.Base Model.NameCheck Model.Parser Model.Header Model.Readers
-  Proofs.Hoare Proofs.ParserTotal Proofs.ParserInv Proofs.ReadersAgree props.C03.
+  Spec.NameSpec Spec.PacketSpec Spec.RecordSpec
+  Proofs.Hoare Proofs.ParserTotal Proofs.ParserInv Proofs.ReadersAgree Proofs.ReadersLabels Proofs.WalkValues props.C03.
 Check (C03_skip_name_agrees : forall (p : bytes) (off e : nat),
   check_compressed_name p off = Ok e -> e < length p -> skip_name p off = Ok e).
 Print Assumptions C03_skip_name_agrees.
@@ -18,3 +19,20 @@ Check (C03_walk_including_opt_total : forall (p : bytes) (v : ppacket), bytes_ok
     walk_offsets v SNameServers = Ok ln /\ length ln = N.to_nat ns /\
     walk_offsets v SAdditional = Ok lr /\ length lr = N.to_nat ar).
 Print Assumptions C03_walk_including_opt_total.
+Check (C03_copy_name_labels : forall (p : bytes), bytes_ok p -> forall off ls e nm,
+  cname_l p off ls e ->
+  copy_uncompressed_name nm p off = Ok (nm ++ wire_of_labels ls, length (wire_of_labels ls), e)).
+Print Assumptions C03_copy_name_labels.
+Check (C03_name_text : forall (p : bytes) off ls e, bytes_ok p ->
+  cname_l p off ls e -> raw_name_to_str p off = Ok (dotted ls)).
+Print Assumptions C03_name_text.
+Check (C03_walk_values : forall p v, bytes_ok p -> parse p = Ok v ->
+  exists an ns ar qe e1 e2 la ln lr,
+    hdr_ancount p = Ok an /\ hdr_nscount p = Ok ns /\ hdr_arcount p = Ok ar /\ cname p 12 qe /\
+    records_at p (qe + 4) la e1 /\ length la = N.to_nat an /\ walk_views v SAnswer = Ok (map (view_of p) la) /\
+    records_at p e1 ln e2 /\ length ln = N.to_nat ns /\ walk_views v SNameServers = Ok (map (view_of p) ln) /\
+    records_at p e2 lr (length p) /\ length lr = N.to_nat ar /\ walk_views v SAdditional = Ok (map (view_of p) lr)).
+Print Assumptions C03_walk_values.
+Check (C03_reading_unique : forall p off l e, records_at p off l e ->
+  forall l' e', records_at p off l' e' -> length l = length l' -> l = l' /\ e = e').
+Print Assumptions C03_reading_unique.
